@@ -116,6 +116,7 @@ class GrammarAI:
         self.outer_consumed = []
         self.cur_site = None
         self.callargs = defaultdict(set)
+        self.cm_kinds = defaultdict(int)      # (caller, callee) -> union of node-kind masks of CompletedMarker arguments (-1: unknown)
         self.runs_by_fn = defaultdict(int)
         self.rpo_cache = {}
         self.fnsteps = defaultdict(int)
@@ -1362,6 +1363,11 @@ class GrammarAI:
         # inside the callee; keeping them would multiply contexts by the number of precedence levels)
         if bb is not None:
             self.callargs[(body.npath, cal, bb)].add(tuple(a for a in cargs if a[0] in ("i", "k", "b", "top")))
+            # node kinds of completed markers handed to the callee (e.g. the operand a postfix form is applied to)
+            for a in cargs:
+                if a[0] == "agg" and a[1].endswith("CompletedMarker") and len(a[3]) == 2:
+                    km = a[3][1]
+                    self.cm_kinds[(body.npath, cal)] |= (km[1] if km[0] == "k" else -1)
         cargs = tuple((("ige", 1) if a[1] >= 1 else a) if a[0] == "i" else a for a in cargs)
         cwin = self.canon_win(st.win)
         ckey = (cal, cwin, cargs, tuple(ren[k] for k in passed))
